@@ -144,6 +144,14 @@ add('C34', 'exploration',
     'TLA+ spec LexerSafe.tla: abstract command lines (safe/unsafe commands, 11 argument forms, assignment, 8 flow tokens) printed by TLC together with the structural predicate MustNotRun; real parser.Parse verdict compared, the real ParseBlock (recursive) confirms what each line contains',
     'All lines of 2 segments over the full syntax and 3 segments over a reduced one (thorough: wider); violation = must-not-run, confirmed by ParseBlock, and Unsafe=false; over-caution is not judged.',
     'the tokeniser is not transcribed (exploration); command words confirmed against parser.GetSafeCmds() of the tree under test', 'DESIGN §6 C34')
+add('C19', 'exploration',
+    'TLA+ spec Robust.tla enumerates the adversarial input space (builtin from the real registry x 0-2 arguments of 16 hostile shapes x 8 stdin shapes) and states the outcome rule (ok | error with exit != 0; panic/crash/hang forbidden); a seeded sample (thorough: the whole table) plus hand-written error-path programs run in child processes with per-program deadlines, a subset through the real `murex -c` binary',
+    'About 38k table rows (quick: 1500 sampled by VERIF_SEED; the whole table has been run once and triaged) and 40 error-path programs (named-pipe misuse with the real 2 s timers, malformed signatures, bad casts, bad block names, out-of-range indexes, unbalanced quotes, bad flag tables); outcome classification from stderr markers (`panic caught`, `Murex has crashed`), process death and missed deadlines; a missed deadline is believed only after the program, run alone, misses a 4x deadline twice more.',
+    'specification-derived adversarial generation, not fuzzing of all programs; deny-listed builtins (exit, kill/signal, exec, network, interactive readers, persistent hooks, never-ending loops, definitions that change later rows) are not in the table', 'DESIGN §6 C19')
+add('C32', 'exploration',
+    'Go race detector on the real code (harness built with -race) under workloads supplied by the specifications: the concurrent pipe drivers of Stream.tla, concurrent registry operations of NamedPipes.tla with the real timers, and the program tables of RunModes.tla / Pipeline.tla plus structured programs run 4 at a time under schedule perturbation; every distinct race report (keyed by its two access sites) is a finding',
+    'The oracle is the race detector, not TLC; the models contribute the workloads and the list of action pairs that can be enabled concurrently (model_coenabled_pairs in the evidence). Races on state no specification drives are only reached through the murex programs.',
+    'reports races that happen in the driven executions, not all possible ones', 'DESIGN §6 C32')
 
 
 def main():
